@@ -809,6 +809,19 @@ def reachable_throws(idx, stmts, depth=10):
         for x in nodes_outside_throw_operands(node):
             if x['kind'] == 'CXXThrowExpr':
                 out.setdefault(owner, pos(x))
+            if x['kind'] in ('CXXConstructExpr', 'CXXTemporaryObjectExpr') and d < depth:
+                # a constructor of a repository class runs its initialisers and body (CodeGen resolves the labels there)
+                import re as _re
+                tn = _re.sub(r'^(const )?(class |struct )?', '', qt(x)).strip()
+                rec_ = idx.records.get(tn)
+                ct = ((x.get('ctorType') or {}).get('qualType') or '').strip()
+                for c_ in (rec_.ctors if rec_ is not None else []):
+                    if c_.type.strip() == ct and c_.id not in seen and (c_.body is not None or c_.inits):
+                        seen.add(c_.id)
+                        if c_.body is not None:
+                            visit(c_.body, c_.qname, d + 1)
+                        for ini in c_.inits:
+                            visit(ini, c_.qname, d + 1)
             if x['kind'] in cast.CALL_KINDS and d < depth:
                 kind, name, did, obj = callee_of(x)
                 targets = []
